@@ -104,7 +104,7 @@ class LazyList:
                 return ret
         else:
             if position < 0:
-                self.generated += list(self)
+                len(self)  # generate everything; list(self) would re-add it
                 return self.generated[position]
             elif position < len(self.generated):
                 return self.generated[position]
